@@ -62,3 +62,78 @@ package types
 //@   requires acct != nil && acct.Balance != nil
 //@   allocates uint256.Int
 //@   ensures result != nil && fresh(result) && u(result) == u(acct.Balance)                            [C02]
+
+// ---- governance parameters seen by the transaction pipeline (interface contracts) -------------
+
+//@ func (h IGovHandler) GasPrice()
+//@   allocates uint256.Int
+//@   ensures result != nil && fresh(result) && u(result) == govGasPrice[h] && govGasPrice[h] < 2^128      [C16]
+
+//@ func (h IGovHandler) MinTrxFee()
+//@   allocates uint256.Int
+//@   ensures result != nil && fresh(result) && u(result) == govMinTrxGas[h] * govGasPrice[h] && 0 <= govMinTrxGas[h] && govMinTrxGas[h] < 2^64   [C16]
+
+// ---- signature verification (C03) ---------------------------------------------------------------
+
+//@ func PreImageToSignTrxRLP(tx, chainId)
+//@   trusted
+//@   requires tx != nil
+//@   ensures tx_same(tx)
+//@   ensures result1 == nil ==> content(result0) == preimage_of(chainId, tx) && result0 != nil
+
+//@ func VerifyTrxRLP(tx, chainId)
+//@   nopanic
+//@   requires wf_tx(tx)
+//@   ensures tx_same(tx)                                                                                    [C03]
+//@   ensures result2 == nil ==> sig_ok(tx, chainId)                                                         [C03]
+
+// ---- transaction handlers, by the role they play in a TrxContext --------------------------------
+// (the four ITrxHandler fields of TrxContext hold different controllers; each role has its own contract)
+
+//@ func (h ITrxHandler_TrxAcctHandler) ValidateTrx(ctx)
+//@   requires wf_ctx(ctx)
+
+//@ func (h ITrxHandler_TrxGovHandler) ValidateTrx(ctx)
+//@   requires wf_ctx(ctx)
+
+//@ func (h ITrxHandler_TrxStakeHandler) ValidateTrx(ctx)
+//@   requires wf_ctx(ctx)
+
+//@ func (h ITrxHandler_TrxEVMHandler) ValidateTrx(ctx)
+//@   requires wf_ctx(ctx)
+
+//@ func (h ITrxHandler_TrxAcctHandler) ExecuteTrx(ctx)
+//@   requires wf_ctx(ctx)
+//@   requires ctx.Exec ==> sig_ok(ctx.Tx, ctx.ChainID)                                                      [C03]
+//@   requires ctx.Sender.Nonce == ctx.Tx.Nonce                                                              [C04]
+//@   modifies everything
+//@   preserves Account.Nonce, Account.Balance, Account.Code, Trx.*, TrxContext.*, govGasPrice, govMinTrxGas
+//@   ensures wf_ctx(ctx) && tx_same(ctx.Tx)
+//@   ensures result != nil ==> u(ctx.Sender.Balance) == old(u(ctx.Sender.Balance))                         [C05]
+//@   ensures result == nil ==> u(ctx.Sender.Balance) >= old(u(ctx.Sender.Balance)) - u(ctx.Tx.Amount)      [C16]
+
+//@ func (h ITrxHandler_TrxGovHandler) ExecuteTrx(ctx)
+//@   sameas (ITrxHandler_TrxAcctHandler).ExecuteTrx
+
+//@ func (h ITrxHandler_TrxStakeHandler) ExecuteTrx(ctx)
+//@   sameas (ITrxHandler_TrxAcctHandler).ExecuteTrx
+
+//@ func (h ITrxHandler_TrxEVMHandler) ExecuteTrx(ctx)
+//@   requires wf_ctx(ctx)
+//@   requires ctx.Tx.Type == 6 || (ctx.Tx.Type == 1 && ctx.Receiver.Code != nil)
+//@   requires ctx.Exec ==> sig_ok(ctx.Tx, ctx.ChainID)                                                      [C03]
+//@   requires ctx.Sender.Nonce == ctx.Tx.Nonce                                                              [C04]
+//@   modifies everything
+//@   preserves Account.Balance, Trx.*, TrxContext.Tx, TrxContext.Sender, TrxContext.Receiver, TrxContext.Exec, TrxContext.ChainID, TrxContext.AcctHandler, TrxContext.GovHandler, govGasPrice, govMinTrxGas
+//@   ensures wf_ctx(ctx) && tx_same(ctx.Tx)
+//@   ensures result == nil && ctx.Exec ==> ctx.Sender.Nonce == old(ctx.Sender.Nonce) + 1                    [C04]
+//@   ensures result != nil ==> ctx.Sender.Nonce == old(ctx.Sender.Nonce) && u(ctx.Sender.Balance) == old(u(ctx.Sender.Balance))   [C04,C05]
+//@   ensures result == nil ==> ctx.GasUsed <= ctx.Tx.Gas                                                    [C16]
+//@   ensures result != xerrors.ErrUnknownTrxType                                                            [C04,C16]
+//@   ensures old(ctx.Receiver.Code) != nil ==> ctx.Receiver.Code != nil                                     [C04,C16]
+
+//@ func (h IAccountHandler) SetAccountCommittable(acct, exec)
+//@   requires acct != nil
+//@   modifies everything
+//@   preserves Account.*, Trx.*, TrxContext.*, govGasPrice, govMinTrxGas, mem(uint256.Int)
+//@   ensures result == nil                                                                                  [C05]
